@@ -165,7 +165,12 @@ INFO = {
                 "the reader trace (same wire bytes re-chunked into a real peer connection) attributes every delivered byte to the wire. Payload sizes up to 3*65536+5."),
     "C02": dict(note=_TB + "'Cryptographic random source' is established as identity of the package's mask source with crypto/rand.Reader at init plus "
                 "freshness of every key as a non-overlapping, forward-moving window of an installed source; not by statistics. The repository's own test "
-                "suite is additionally run under a wire tap (hook verifWire) and every connection's output validated against the wire grammar."),
+                "suite is additionally run under a wire tap (hook verifWire) and every connection's output validated against the wire grammar. "
+                "'Always' includes runs in which a transport write fails and the application carries on (fault enumeration: every write-side transport operation x error / timeout / short write) "
+                "and concurrent WriteControl callers (schedules of the lock-protocol model replayed through the verif gates)."),
+    "C03": dict(note=_TB + "Read programs: ReadMessage, NextReader + Read(k) / io.ReadAll / exact reads, ReadJSON (operation RJ: an opaque consumer that needs at least the first JSON value), "
+                "JoinMessages read with io.ReadAll and with 1-3 byte reads, a stale reader of an earlier message (RDO), the application's own close sent while reading (WCL). "
+                "Groups of six connections additionally read compressed streams concurrently in one process (shared inflater pool) under the race detector; each connection's trace is validated."),
     "C06": dict(note=_TB + "The memory clause is an allocation measurement (TotalAlloc around library calls, bound 8 x bytes received + 4 MiB) on frames that "
                 "declare 2^28, 2^63-1 or top-bit lengths while a few bytes are sent. The model config with the as-coded 'per_call' policy must violate the invariant (sensitivity self-test)."),
     "C07": dict(category="model_checking",
@@ -178,7 +183,8 @@ INFO = {
                 "TLC-simulated schedules is replayed through the verif gates and free runs are validated; a rejection is about the observed order. Goroutine attribution by goroutine id."),
     "C10": dict(category="model_checking",
                 note=_TB + "Fault positions: a dry run counts the write-side transport operations of each program, then the program is run once per operation index and fault kind "
-                "(error, timeout, short write). Deadlines are identified by value against the deadlines the driver set."),
+                "(error, timeout, short write). Deadlines are identified by value against the deadlines the driver set. Fail-stop is also checked against writers that were already "
+                "queued for the connection when the fault happened: schedules of the lock-protocol model with a failing transport operation are replayed through the verif gates."),
     "C11": dict(note=_TB + "Data-race freedom is OBSERVED by the Go race detector on replayed schedules, free runs and concurrent shared-pool / shared-PreparedMessage runs; it is not proved. "
                 "Atomicity, ordering and bounded waiting are decided by TLC (exhaustive lock-protocol model incl. a liveness property under fairness of the control callers only) and by the monitor on recorded executions. "
                 "Timeliness: a WriteControl counts as late only beyond its deadline + 5 s."),
